@@ -1,7 +1,7 @@
 """C01 Simple driver returns a solution of A*X=B  —  R3 (dispatch of ?gssv, ?gstrs), R7 (permutation roles in ?gstrs), R9."""
 from ..facts import Program, loc
 from ..run import Check, AnalysisBroken
-from ..rules import r3_dispatch as r3, r9_sibling, kernels
+from ..rules import r3_dispatch as r3, r9_sibling, kernels, expand
 from ..rules.effects import PathEffects as Effects
 from ..rules.r3_dispatch import ptr_desc
 from . import _drv
@@ -217,6 +217,8 @@ def run(tier):
             chk.saw(unit='SRC/%sgstrs.c' % p, func='SRC/%sgstrs.c:%sgstrs' % (p, p))
         kernels.run_basic(chk, 'C01.kern', prog, cfgname, ('solve', 'bmod'), floor_scratch=4 if cfgname != 'cblas' else 20)
         kernels.run_factor(chk, 'C01.kern', prog, cfgname)
+        chk.clause('C01.kern.copy', 'growth of factor storage carries the old contents over')
+        expand.copy_helper_rule(chk, 'C01.kern.copy', prog, cfgname)
         if n1 < 4 * 24 or n2 < 4 * 3:
             raise AnalysisBroken('C01: %d/%d leaf valuations explored, floors %d/%d' % (n1, n2, 96, 12))
         chk.notes.append('%s: %d leaf valuations of ?gssv, %d of ?gstrs' % (cfgname, n1, n2))
